@@ -184,6 +184,7 @@ type trackedDecompressor struct {
 func (d *trackedDecompressor) Reset(r io.Reader) error {
 	d.tr.Resets.Add(1)
 	d.mu.Lock()
+	parking := false
 	switch d.state {
 	case 0:
 		d.state = 1
@@ -191,11 +192,18 @@ func (d *trackedDecompressor) Reset(r io.Reader) error {
 	case 2:
 		d.state = 0 // the parking Reset of putDecompressor
 		d.tr.event("P")
+		parking = true
 	default:
 		d.tr.problem("a pooled decompressor was handed to a call while another call still held it")
 		d.tr.event("R")
 	}
 	d.mu.Unlock()
+	if parking {
+		// the decompressor is still its holder's while it is parked: take some time over it, so
+		// that a pool which already offers it to others shows
+		runtime.Gosched()
+		time.Sleep(100 * time.Microsecond)
+	}
 	// a source that announces itself as unreadable: Reset fails (as gzip.Reader.Reset
 	// does on a bad header)
 	if bb, ok := r.(*bytes.Buffer); ok && bb.Len() > 0 && bb.Bytes()[0] == '!' {
